@@ -22,6 +22,11 @@ Proof. exact event_table_bounded_tie. Qed.
 
 (* every valid entry under any root, at any depth: the notification path is mapped back to
    exactly that entry (same id, same extension, right kind) *)
+(* around the table: every path of every event reaches the table and id_of_path for every root; no
+   event is filtered out before (attributes such as the rename cookie play no role) *)
+Theorem C12_code_every_event_reaches_the_table : handle_event_frame_wf Gen.Watcher.handle_event = true.
+Proof. exact handle_event_frame. Qed.
+
 Theorem C12_id_of_path_inverts_path_of : forall fixed root e,
   root_ok root = true -> entry_ok e = true -> e <> EDir [] ->
   id_of_path fixed root (path_of root e) (is_dir_entry e) = Some e.
